@@ -94,3 +94,23 @@ void h_blocks_cleanup(void)
     VERIF_CANARY;
 }
 #endif
+
+/* ------------------------------------------------------------ ConnRef::~ConnRef (libavoid/connector.cpp)
+ * C15: "deleting a connector inside a pending transaction" must not leave an action for it in the router's queue (the next
+ * processTransaction would act on freed memory).  The destructor purges the queue for THIS object exactly once, in every state. */
+#if defined(JOB_destroy)
+void w_destroy(int active, int hasSrcV, int hasDstV, int hasSrcE, int hasDstE, unsigned ncp); void *verif_conn_addr(void); void *verif_router_addr(void);
+static int purges, purged_other; 
+void w_note(int what, void *obj) { }
+void w_purge(void *router, void *obj) { if (router == verif_router_addr() && obj == verif_conn_addr()) purges++; else purged_other++; }
+void h_destroy(void)
+{
+  int active, sv, dv, se, de; unsigned ncp;
+  __CPROVER_assume(ncp <= 2);
+  purges = 0; purged_other = 0; verif_thrown = 0;
+  w_destroy(active, sv, dv, se, de, ncp);
+  __CPROVER_assert(!verif_thrown, "SPEC destruction under the router's control does not abort");
+  __CPROVER_assert(purges == 1 && purged_other == 0, "SPEC the destructor purges the router's pending actions for this connector exactly once, active or not");
+  VERIF_CANARY;
+}
+#endif
